@@ -3,7 +3,7 @@
    `C37 canon <code> [outcome…] <fuel> <cv>` → effects + result of the untimed specification
    (`cv` = the caller's value of the context variable)
    code: [[eff,k],[yf,i],[yl,[i,…]],[ym],[ret,v],[retlast],[raise,e],[push,h],[pop],[jmp,l],[caught],[reraise],
-          [cread],[cset,v],[tset,v],[treset]] -/
+          [cread],[cset,v],[tset,v],[treset],[onlye,l]] -/
 import TornadoModel.Base.Wire
 import TornadoModel.C36.Drv
 import TornadoModel.C37.Spec
@@ -39,6 +39,7 @@ def decInstr : V → Option Code.Instr
   | .list [.atom "cset", v] => v.nat?.map .cset
   | .list [.atom "tset", v] => v.nat?.map .tset
   | .list [.atom "treset"] => some .treset
+  | .list [.atom "onlye", l] => l.nat?.map .onlyE
   | _ => none
 
 def decOp : V → Option Op
